@@ -18,7 +18,7 @@ RULE = (
     "round of the float64 mean (sums must not wrap); detrend: least-squares residual (float64 polyfit); containers: "
     "TimeSeries.deredden (= data - running filter with round(window/tsamp) bins), TimeSeries.downsample, "
     "FilterbankBlock.downsample. Tolerances: medians exact; float32 running mean 1e-4*max|x|; means 1e-6 relative; "
-    "float64 1e-9. Non-trivial = w even and > n, or factor not dividing n, or non-square 2-D; distinct by case JSON."
+    "float64 1e-9. long_series: ENUMERATED lengths 5e4..4.2e6 (thorough: ..1.7e7) x {float32,float64} with a drift: detrend vs centred closed-form least squares, decimation, running mean at sampled positions (float32 running mean only to the worst-case bound of a single-precision sliding sum). Non-trivial = w even and > n, or factor not dividing n, or non-square 2-D; distinct by case JSON."
 )
 ASSUMPTIONS = [
     "window widths and factors >= 1; factor <= n for the 1-D decimator (larger factors are rejected by contract)",
@@ -227,6 +227,85 @@ def check_detrend(case, ctx):
     return Info(n >= 3, (case["dtype"],))
 
 
+
+# ------------------------------------------------------------------ long series
+
+LONG_N = {"quick": [50_000, 65_537, 262_144, 1_000_003, 1_700_000, 2_200_000, 4_194_304],
+          "thorough": [50_000, 55_200, 65_537, 100_000, 262_144, 500_000, 1_000_003, 1_290_000, 1_700_000, 2_200_000, 3_000_000,
+                       4_194_304, 8_388_608, 16_777_216]}
+
+
+def enum_long(tier):
+    for i, n in enumerate(LONG_N[tier]):
+        for dtype in ("float32", "float64"):
+            yield {"n": n, "dtype": dtype, "seed": 1000 + i, "slope": [1e-4, -2e-3, 0.0][i % 3], "w": [101, 4096, 7][i % 3],
+                   "f": [7, 64, 1000][i % 3]}
+
+
+def check_long(case, ctx):
+    """Lengths of real observations (1e5 - 1e7 samples): the same definitions must hold; sums and index
+    arithmetic must not wrap or lose the series in accumulated rounding."""
+    from sigpyproc.core import kernels, stats
+
+    n, dtype = case["n"], case["dtype"]
+    rng = np.random.default_rng(case["seed"])
+    t = np.arange(n, dtype=np.float64)
+    x = (3.0 + case["slope"] * t + rng.normal(0, 1, n)).astype(dtype)
+    x64 = x.astype(np.float64)
+    ctxt = f"n={n} {dtype} slope={case['slope']}"
+
+    def call(name, fn):
+        try:
+            return np.asarray(fn())
+        except Exception as exc:  # noqa: BLE001
+            raise Violation(f"long:{name}:raised:{type(exc).__name__}", f"{ctxt}: {exc!r}") from exc
+
+    # detrend: closed-form least squares in float64 (centred abscissa: well conditioned)
+    out = call("detrend", lambda: kernels.detrend_1d(x))
+    require(out.shape == (n,), "long:detrend:length", f"{ctxt}: {out.shape}")
+    tc = t - t.mean()
+    b = float(tc @ x64) / float(tc @ tc)
+    ref = x64 - (x64.mean() + b * tc)
+    scale = float(np.abs(x64).max()) + abs(case["slope"]) * n + 1e-30
+    tol = (2e-5 if dtype == "float32" else 1e-9) * scale
+    err = np.abs(out.astype(np.float64) - ref)
+    if np.any(err > tol):
+        i = int(np.argmax(err))
+        raise Violation("long:detrend:values", f"{ctxt}: out[{i}]={out[i]!r}, least-squares residual {ref[i]!r} (max error {err.max():.4g}, residual rms {ref.std():.4g})")
+    # decimation: mean of each full group
+    f = case["f"]
+    g = x64[: (n // f) * f].reshape(n // f, f).mean(axis=1)
+    for name, fn in (("downsample_1d", lambda: stats.downsample_1d(x, f, "mean")), ("downsample_1d_mean_parallel", lambda: kernels.downsample_1d_mean_parallel(x, f))):
+        o = call(name, fn)
+        require(o.shape == g.shape, f"long:{name}:length", f"{ctxt} f={f}: {o.shape} vs {g.shape}")
+        e = np.abs(o.astype(np.float64) - g)
+        lim = (2e-6 if dtype == "float32" else 1e-9) * (np.abs(g) + float(np.abs(x64).max()))
+        if np.any(e > lim):
+            i = int(np.argmax(e - lim))
+            raise Violation(f"long:{name}:values", f"{ctxt} f={f}: group {i} got {o[i]!r} mean {g[i]!r}")
+    # running mean at sampled positions (and both ends) against the windowed definition with reflected ends
+    w = case["w"]
+    o = call("running_filter", lambda: stats.running_filter(x, w, method="mean"))
+    require(o.shape == (n,), "long:running:length", f"{ctxt}: {o.shape}")
+    pos = np.unique(np.concatenate([np.arange(0, min(n, 2 * w)), np.arange(max(0, n - 2 * w), n), rng.integers(0, n, 400)]))
+    ext = np.concatenate([x64[:w][::-1], x64, x64[-w:][::-1]])  # symmetric reflection
+    cs = np.concatenate([[0.0], np.cumsum(ext)])
+    refs = []
+    for left in ((w - 1) // 2, w // 2):
+        a = pos + w - left
+        refs.append((cs[a + w] - cs[a]) / w)
+    # float32: the library slides a single-precision sum along the series (bottleneck.move_mean); each of the n
+    # updates rounds twice at <= eps32/2 * w * max|x|, so the mean may drift by n * eps32 * max|x| in the worst case
+    # (observed: 1.2 % at n = 2^24 on a steep ramp).  The property states no precision, so only that bound (x2) is
+    # asserted in single precision; the float64 run of the same length is checked tightly.
+    tolr = (max(1e-4, 2 * n * float(np.finfo(np.float32).eps)) if dtype == "float32" else 1e-8) * (float(np.abs(x64).max()) + 1e-30)
+    ok = [np.all(np.abs(o[pos].astype(np.float64) - r) <= tolr) for r in refs]
+    if not any(ok):
+        r = refs[0]
+        i = int(np.argmax(np.abs(o[pos] - r)))
+        raise Violation("long:running:values", f"{ctxt} w={w}: out[{int(pos[i])}]={o[pos][i]!r}, window mean {r[i]!r}")
+    return Info(True, (dtype, "n>=2^20" if n >= 2**20 else "n<2^20", "n>1.66e6" if n > 1_660_000 else "n<=1.66e6"))
+
 # ------------------------------------------------------------------ containers
 
 @st.composite
@@ -299,6 +378,7 @@ def subchecks(tier):
                  examples={"quick": 2500, "thorough": 150000}, shards={"quick": 4, "thorough": 12}),
         SubCheck("detrend", check_detrend, strategy=lambda t: strat_detrend(),
                  examples={"quick": 800, "thorough": 40000}, shards={"quick": 2, "thorough": 4}),
+        SubCheck("long_series", check_long, enumerate=enum_long, shards={"quick": 7, "thorough": 14}, budget_s={"quick": 250, "thorough": 1500}),
         SubCheck("containers", check_containers, strategy=lambda t: strat_containers(),
                  examples={"quick": 600, "thorough": 30000}, shards={"quick": 3, "thorough": 8}),
     ]
